@@ -49,11 +49,11 @@ BAD_OPT_VALUES = [{'raw': 'x'}, {'raw': 1}, {'trivia': 'zz'}, {'trivia': ('all',
 ERR_WEIGHTS = {'unparsable': 3, 'wrongcat': 5, 'wrongcat-ast': 3, 'wrongcat-fst': 3, 'arglike': 4, 'index': 1.5, 'optname': 0.5,
                'optvalue': 1, 'consumed': 1, 'nonroot': 0.7, 'nonroot-self': 1, 'ownroot': 0.7, 'undeletable': 2.5,
                'to-nonraw': 1, 'one-false': 1, 'raw-unparsable': 1, 'raw-wrongcat': 2, 'badarg': 0.4, 'vslice': 5,
-               'put_src': 2.5, 'root': 1.5, 'delete-field': 2}
+               'put_src': 2.5, 'root': 1.5, 'delete-field': 2, 'optvalue-stmt': 3}
 
 ERR_KINDS = ['unparsable', 'wrongcat', 'wrongcat-ast', 'wrongcat-fst', 'arglike', 'index', 'optname', 'optvalue',
              'consumed', 'nonroot', 'nonroot-self', 'ownroot', 'undeletable', 'to-nonraw', 'one-false', 'raw-unparsable',
-             'raw-wrongcat', 'badarg', 'vslice', 'put_src', 'root', 'delete-field']
+             'raw-wrongcat', 'badarg', 'vslice', 'put_src', 'root', 'delete-field', 'optvalue-stmt']
 
 
 def nodes_of(root):
@@ -165,6 +165,10 @@ def execute(root, req):
         return None
     if op == 'unpar':
         return f.unpar(**req['kw'])
+    if op == 'cut':
+        return f.cut(**opts)
+    if op == 'get_slice':
+        return f.get_slice(req['start'], req['stop'], field, cut=True, **opts)
     if op == 'put_src':
         kw = {'action': req['action']} if 'action' in req else {}
         return f.put_src(req['text'], *req['loc'], **kw)
@@ -463,6 +467,166 @@ def _delete_field_req(rng, nodes):
     return {'errkind': 'delete-field', 'op': 'delattr', 'node': i, 'field': fld}
 
 
+OPTION_NAMES = ['raw', 'trivia', 'coerce', 'promote', 'elif_', 'pep8space', 'docstr', 'pars', 'pars_walrus', 'pars_arglike', 'norm',
+                'norm_self', 'norm_get', 'set_norm', 'op_side', 'op', 'args_as']
+OPTION_JUNK = [2, 3, -1, 100, 1.5, 'zz', '', (1, 2, 3), b'x']
+STMT_LIST_FIELDS = ('body', 'orelse', 'finalbody', 'handlers', 'cases')
+STMT_CODE = {'handlers': 'except c12v: pass', 'cases': 'case c12v: pass'}
+
+
+def option_names():
+    try:
+        from fst.fst_options import _GLOBAL_OPTIONS_W_DEFAULTS
+        return sorted(set(OPTION_NAMES) | set(_GLOBAL_OPTIONS_W_DEFAULTS))
+    except Exception:
+        return OPTION_NAMES
+
+
+def _stmt_lists(nodes):
+    out = []
+    for i, f in enumerate(nodes):
+        for fld in STMT_LIST_FIELDS:
+            v = getattr(f.a, fld, None)
+            if isinstance(v, list) and v and isinstance(v[0], (ast.stmt, ast.ExceptHandler, ast.match_case)):
+                out.append((i, fld, len(v)))
+    return out
+
+
+def _stmt_opt_reqs(i, fld, n, opts, errkind='optvalue-stmt'):
+    """every public entry-point family of a statement-list edit, with the given options"""
+    code = {'k': 'src', 'v': STMT_CODE.get(fld, 'c12v = 1')}
+    base = {'errkind': errkind, 'node': i, 'field': fld, 'opts': opts}
+    reqs = [
+        {**base, 'op': 'insert', 'idx': 0, 'code': code, 'one': True},
+        {**base, 'op': 'insert', 'idx': 'end', 'code': code, 'one': False},
+        {**base, 'op': 'append', 'code': code},
+        {**base, 'op': 'prepend', 'code': code},
+        {**base, 'op': 'extend', 'code': code},
+        {**base, 'op': 'put_slice', 'start': 0, 'stop': 1, 'code': code, 'one': False},
+        {**base, 'op': 'put_slice', 'start': n, 'stop': n, 'code': code, 'one': False},
+        {**base, 'op': 'put', 'idx': 0, 'code': code},
+        {**base, 'op': 'put', 'idx': n - 1, 'code': {'k': 'none'}},
+        {**base, 'op': 'put_slice', 'start': 0, 'stop': 1, 'code': {'k': 'none'}, 'one': False},
+        {**base, 'op': 'get_slice', 'start': 0, 'stop': 1},
+    ]
+    return reqs
+
+
+def _optvalue_stmt_req(rng, nodes):
+    """statement-list edits (all entry points) with an invalid value for some option"""
+    sl = _stmt_lists(nodes)
+    if not sl:
+        return None
+    i, fld, n = rng.choice(sl)
+    opts = {rng.choice(option_names()): rng.choice(OPTION_JUNK)}
+    c = rng.random()
+    if c < 0.25:       # through the child: replace / remove / cut with options
+        ix = {id(f.a): k for k, f in enumerate(nodes)}
+        child = getattr(nodes[i].a, fld)[rng.randrange(n)]
+        op = rng.choice(['replace', 'remove', 'cut'])
+        req = {'errkind': 'optvalue-stmt', 'op': op, 'node': ix[id(child)], 'opts': opts}
+        if op == 'replace':
+            req['code'] = {'k': 'src', 'v': STMT_CODE.get(fld, 'c12v = 1')}
+        return req
+    return rng.choice(_stmt_opt_reqs(i, fld, n, opts))
+
+
+SYST_JUNK = [2, -1, 'zz', 1.5]
+
+
+def systematic_options(rng, root, nodes, cap):
+    """every option x junk values x every entry-point family on every statement list of the tree; when capped, every
+    (option, value) pair is still tried at least once on some list through some entry point"""
+    sl = _stmt_lists(nodes)
+    if not sl:
+        return []
+    first, rest = [], []
+    for name in option_names():
+        for val in SYST_JUNK:
+            group = []
+            for i, fld, n in sl:
+                group.extend(_stmt_opt_reqs(i, fld, n, {name: val}))
+            rng.shuffle(group)
+            first.extend(group[:2])
+            rest.extend(group[2:])
+    if cap and len(first) + len(rest) > cap:
+        rest = rng.sample(rest, max(0, min(len(rest), cap - len(first))))
+    return first + rest
+
+
+def layout_variants(spec, rng, n, tries=12):
+    """the same tree written differently: extra blanks / line continuations inserted or blanks removed between two
+    adjacent tokens of a line (`except *E`, `except\\\n *E`, `f (a)`, `a . b` ...); kept only if pfst parses it (same mode)
+    to the same tree (dump without positions)"""
+    import io
+    import tokenize
+    src, mode = spec['src'], spec.get('mode') or 'exec'
+    try:
+        ref = ast.dump(build(spec).a)
+        toks = list(tokenize.generate_tokens(io.StringIO(src).readline))
+    except Exception:     # noqa: BLE001
+        return []
+    skip = {tokenize.INDENT, tokenize.DEDENT, tokenize.NEWLINE, tokenize.NL, tokenize.COMMENT, tokenize.ENDMARKER}
+    fnames = {'FSTRING_START', 'FSTRING_MIDDLE', 'FSTRING_END'}
+    points = []      # (row, col_end_prev, col_start_tok, in_brackets)
+    depth = fdepth = 0
+    prev = None
+    for t in toks:
+        name = tokenize.tok_name[t.type]
+        if name == 'FSTRING_START':
+            fdepth += 1
+        if t.type in skip:
+            prev = None if t.type != tokenize.COMMENT else None
+            continue
+        if prev is not None and fdepth == 0 and prev.end[0] == t.start[0] and name not in fnames:
+            points.append((t.start[0] - 1, prev.end[1], t.start[1], depth > 0))
+        if name == 'FSTRING_END':
+            fdepth -= 1
+        if t.type == tokenize.OP and fdepth == 0:
+            if t.string in '([{':
+                depth += 1
+            elif t.string in ')]}':
+                depth -= 1
+        prev = t if fdepth == 0 or name == 'FSTRING_END' else None
+    if not points:
+        return []
+    out, seen = [], {src}
+    for _ in range(tries):
+        if len(out) >= n:
+            break
+        lines = src.split('\n')
+        chosen = rng.sample(points, min(len(points), rng.choice([1, 1, 2, 3])))
+        chosen.sort(reverse=True)
+        used_rows = set()
+        for row, c0, c1, inbr in chosen:
+            if row in used_rows and any(True for _ in ()):
+                continue
+            l = lines[row]
+            gap = l[c0:c1]
+            c = rng.random()
+            if c < 0.4:
+                new = gap + ' ' * rng.randint(1, 2)
+            elif c < 0.7:
+                new = gap + ' \\\n' + ' ' * rng.randint(0, 3)
+            elif c < 0.8 and inbr:
+                new = gap + '\n' + ' ' * rng.randint(0, 3)
+            else:
+                new = ''
+            lines[row] = l[:c0] + new + l[c1:]
+        new_src = '\n'.join(lines)
+        if new_src in seen:
+            continue
+        seen.add(new_src)
+        try:
+            if ast.dump(build({'src': new_src, 'mode': mode}).a) != ref:
+                continue
+        except Exception:     # noqa: BLE001
+            continue
+        out.append({'src': new_src, 'mode': mode})
+    registry().clear()
+    return out
+
+
 def systematic(rng, root, nodes, cap):
     """deterministic families over a (small) tree: delete every node and every field; every position x every
     rule-breaking code of every slice field (virtual ones included)"""
@@ -501,6 +665,8 @@ def gen_invalid(rng, root, nodes, errkind=None):
         return _root_req(rng, root, nodes)
     if kind == 'delete-field':
         return _delete_field_req(rng, nodes)
+    if kind == 'optvalue-stmt':
+        return _optvalue_stmt_req(rng, nodes)
     if not tg:
         return None
     tgt = rng.choice(tg)
@@ -635,6 +801,14 @@ SPECIAL = [
     ('case 1: pass\ncase [a, *b]: pass\ncase {"k": v, **r} if v: pass', '_match_cases'),
     ('case C(p, q=r) as s: pass', 'match_case'),
     ('match x:\n    case {1: a, **r}: pass\n    case C(a, b=c): pass\n    case [a, *r] | (1 | 2): pass', 'exec'),
+    ('except *E as e: pass', 'ExceptHandler'), ('except  * (A, B) as e: pass', 'ExceptHandler'), ('except *E as e: pass\nexcept * F as f: pass', '_ExceptHandlers'),
+    ('try: pass\nexcept *E as e: pass', 'exec'), ('try: pass\nexcept \\\n  * (A, B) as e: pass', 'exec'), ('try: pass\nexcept*E as e: pass', 'exec'),
+    # blocks written on the header line, elif chains
+    ('if a: b; c', 'exec'), ('def f(): a; b', 'exec'), ('try: a\nexcept E: b', 'exec'), ('if a: b\nelif c: d', 'exec'),
+    ('if a: b\nelif c: d\nelse: e', 'exec'), ('class C: a; b', 'exec'), ('for i in j: a; b', 'exec'), ('while x: a; b\nelse: c; d', 'exec'),
+    ('with a: b; c', 'exec'), ('match x:\n case 1: a; b\n case _: c', 'exec'), ('try: a; b\nfinally: c; d', 'exec'),
+    ('if a:\n    b\nelif c:\n    d\nelse:\n    e', 'exec'), ('def f():\n    if a: b; c\n    elif d: e', 'exec'), ('async def f(): await a; b', 'exec'),
+    ('if a: b; c', 'stmt'), ('a; b', 'exec'), ('try: a\nexcept* E: b; c\nelse: d', 'exec'),
     # arglikes
     ('a, *b, c=1, **d', '_arglikes'), ('k=1, **d', '_arglikes'), ('*a, *b', '_arglikes'), ('a', '_arglikes'),
     ('f(a, *b, c=1, **d)', 'exec'), ('f(**d)', 'exec'), ('f(k=1)', 'exec'), ('f(x for x in y)', 'exec'), ('f()', 'exec'),
@@ -788,7 +962,7 @@ def target_sig(root, req):
     try:
         nodes = nodes_of(root)
         f = nodes[req['node']]
-        if req['op'] in ('replace', 'remove', 'unpar', 'put_src', 'reparse'):
+        if req['op'] in ('replace', 'remove', 'unpar', 'put_src', 'reparse', 'cut'):
             p = f.parent
             return f"{req['op']}|{p.a.__class__.__name__ if p else 'root:' + f.a.__class__.__name__}.{f.pfield.name if p else ''}"
         return f"{req['op']}|{f.a.__class__.__name__}.{req.get('field')}"
@@ -796,7 +970,7 @@ def target_sig(root, req):
         return f"{req.get('op')}|?"
 
 
-ONE_OPS = ('replace', 'remove', 'put', 'setattr', 'delattr', 'setitem', 'delitem', 'unpar')
+ONE_OPS = ('replace', 'remove', 'put', 'setattr', 'delattr', 'setitem', 'delitem', 'unpar', 'cut')
 
 
 def raise_site(exc):
@@ -999,6 +1173,10 @@ def run_tree(arg):
     if spec.get('derive'):
         specs = derive_specs(spec['src'], rng, spec['derive'])
         out.tally('derived_trees', len(specs))
+    elif spec.get('layouts'):
+        specs = layout_variants(spec, rng, spec['layouts'])
+        out.tally('layout_variants', len(specs))
+    ocap = spec.get('options_cap')
     reg = registry()
     for sp in specs:
         mode = sp.get('mode') or 'exec'
@@ -1035,6 +1213,12 @@ def run_tree(arg):
                 reg.clear()
                 root = build(sp)
                 _one_call(out, sp, root, req, rng, [], 'systematic')
+        if ocap is not None:
+            root = build(sp)
+            for req in systematic_options(rng, root, nodes_of(root), ocap):
+                reg.clear()
+                root = build(sp)
+                _one_call(out, sp, root, req, rng, [], 'systematic-options')
     reg.clear()
     return out.d
 
